@@ -804,6 +804,50 @@ func main() {
 	}
 	fx.CheckOrder = sentinelOrder(ph)
 
+	// main-file addressing of the height queries and of the range query: `file := <expr>` / `wantFile := <expr>` and
+	// `offset := <expr>` (every definition in the function, joined with `|`), and the range loop's stop test
+	for _, fa := range []struct{ fn, as, fileVar string }{
+		{"Repository.header", "header", "file"}, {"Repository.Hash", "hash", "file"}, {"Repository.GetHeaders", "getHeaders", "wantFile"}} {
+		fd := hdrs.funcs[fa.fn]
+		if fd == nil {
+			miss(fa.fn)
+			continue
+		}
+		var files, offs, stops []string
+		ast.Inspect(fd.Body, func(n ast.Node) bool {
+			switch x := n.(type) {
+			case *ast.AssignStmt:
+				if len(x.Lhs) == 1 && len(x.Rhs) == 1 {
+					if id, ok := x.Lhs[0].(*ast.Ident); ok {
+						if id.Name == fa.fileVar {
+							files = append(files, src(hdrs, x.Rhs[0]))
+						}
+						if id.Name == "offset" {
+							offs = append(offs, src(hdrs, x.Rhs[0]))
+						}
+					}
+				}
+			case *ast.IfStmt:
+				if be, ok := x.Cond.(*ast.BinaryExpr); ok && strings.Contains(src(hdrs, be), "maxCount") {
+					stops = append(stops, src(hdrs, be))
+				}
+			case *ast.ForStmt:
+				if x.Cond != nil && fa.as == "getHeaders" {
+					fx.Strs["getHeadersLoop"] = src(hdrs, x.Init) + "; " + src(hdrs, x.Cond) + "; " + src(hdrs, x.Post)
+				}
+			}
+			return true
+		})
+		if len(files) == 0 || len(offs) == 0 {
+			miss(fa.fn + " file/offset expressions")
+		}
+		fx.Strs[fa.as+"FileExpr"] = strings.Join(files, "|")
+		fx.Strs[fa.as+"OffsetExpr"] = strings.Join(offs, "|")
+		if fa.as == "getHeaders" {
+			fx.Strs["getHeadersStopTests"] = strings.Join(stops, "|")
+		}
+	}
+
 	// Target: literals
 	tg := hdrs.funcs["Branch.Target"]
 	if tg != nil {
